@@ -482,6 +482,9 @@ def base_plans(spec: dict, tier: str = 'quick') -> t.List[dict]:
                     b[d] = ['next'] * k + ['ok']
             if ok:
                 out.append(b)
+                if any(c is not None for c in combo):
+                    # the first restart of every destination carries a FALSY (non-None) payload
+                    out.append({n: (['next0'] + v[1:] if v[0] == 'next' else v) for n, v in b.items()})
                 # a switch node that is re-executed in a later iteration may return another label there
                 iterated = [c for c in combo if c is not None]
                 if iterated and lc:
@@ -509,14 +512,14 @@ def plans(spec: dict, tier: str = 'quick', pairs: bool = False) -> t.List[dict]:
         for n in names:
             if n in b:
                 # failing after its scripted prefix (e.g. fails in iteration 1)
-                if b[n][0] == 'next':
-                    add(dict(b, **{n: ['next', 'raise:E1']}))
+                if b[n][0] in ('next', 'next0'):
+                    add(dict(b, **{n: [b[n][0], 'raise:E1']}))
                     add(dict(b, **{n: ['raise:E1']}))
                 else:
                     add(dict(b, **{n: ['raise:E1']}))
                 continue
             add(dict(b, **{n: ['raise:E1']}))
-            if any(v[0] == 'next' for v in b.values()):
+            if any(v[0] in ('next', 'next0') for v in b.values()):
                 add(dict(b, **{n: ['ok', 'raise:E1']}))
         if pairs:
             free = [n for n in names if n not in b]
@@ -531,6 +534,11 @@ def plans(spec: dict, tier: str = 'quick', pairs: bool = False) -> t.List[dict]:
             add(dict(b0, **{n: ['none']}))
             add(dict(b0, **{n: ['zero']}))
     add(dict(b0, **{names[0]: ['none']}))
+    # unusual but legal VALUES: one whose truth value raises (array-like), and an exception instance returned as a value
+    for n in names:
+        if n not in b0:
+            add(dict(b0, **{n: ['ambig']}))
+            add(dict(b0, **{n: ['excval']}))
     return out
 
 
